@@ -36,13 +36,18 @@ def mk(kind, scripts, late, leaver, sched, react=None, leaver_first=False, closi
             init.append(["sub", 2, 0])
         threads.append(["u", ["unsub", 2]])
     fini = []
+    if closing is not None and closing.startswith("reuse-"):
+        # a plain Subject is reusable after a terminal: U2 subscribes, the subject terminates (U2 has ended), U0 subscribes; while the
+        # producers push, the FINISHED subscription of U2 is unsubscribed as ordinary clean-up: U0 stays subscribed throughout
+        init = [["sub", 2, 0], ["complete", 0] if closing == "reuse-c" else ["error", 0, 5], ["sub", 0, 0]]
+        threads.append(["u", ["unsub", 2]])
     if late and closing is None:
         threads.append(["s", ["sub", 1, 0]])
     if closing is not None and closing.startswith("race-"):
         # no producers: a thread closes the subject while another one subscribes U1 - whichever comes first, U1 ends with that terminal
         threads.append(["s", ["sub", 1, 0]])
         threads.append(["x", ["complete", 0] if closing == "race-c" else ["error", 0, 5]])
-    elif closing is not None:
+    elif closing is not None and not closing.startswith("reuse-"):
         # the producers' threads have finished; the subject is closed; only then does U1 subscribe: a ReplaySubject hands it every
         # item ever pushed (once, in push order) and the terminal, a BehaviorSubject the terminal alone
         fini = [["complete", 0] if closing == "c" else ["error", 0, 5], ["sub", 1, 0]]
@@ -83,6 +88,8 @@ def generate(rng, tier, seed):
                 cases.append(mk(kind, [], True, False, ["pct", 3, base, 300 if thorough else 100], closing=cases[-1]["closing"]))
             if kind[1] in ("replay", "behavior") and rng.random() < 0.5:
                 cases.append(mk(kind, scripts, True, False, ["random", base, 20 if thorough else 8], closing=rng.choice(["c", "e"])))
+            if kind[1] == "subject" and rng.random() < 0.6:
+                cases.append(mk(kind, scripts, False, False, ["random", base, 30 if thorough else 12], closing=rng.choice(["reuse-c", "reuse-e"])))
     return cases
 
 
@@ -123,6 +130,13 @@ def judge_one(case, ob):
     for u in (0, 1, 2):
         mine = [c for c in cbs if c[0] == u]
         closing = case.get("closing")
+        if closing and closing.startswith("reuse-"):
+            if u == 2:
+                if [c[1][0] for c in mine] != [closing[-1]]:
+                    bad.append("U2 was subscribed when the subject terminated with '%s' but received %s" % (closing[-1], [c[1] for c in mine]))
+                logs[u] = []
+                continue
+            closing = None
         if closing and closing.startswith("race-"):
             if u == 2:
                 logs[u] = []
